@@ -1179,4 +1179,22 @@ theorem invN_reachableR (progs : Tid → List Op) : ∀ s, (sys progs).Reachable
       exact invN_step (invA_reachable progs _ ih.2) (keys_nodup_reachable progs _ ih.2) ih.1 hok hs
   exact key.1
 
+/-- kept_stream_completed_once, as a state predicate: a stream whose connection was stored in the pool
+    has been completed at most once, and if it has not been completed yet it is still the stream of an
+    open connection that the pool's map holds under the stream's own key (so the next FIN/RST or FlushAll
+    completes it). -/
+def KeptOnce (s : State) : Prop :=
+  ∀ sid, s.kept sid = true → ncomp s.log sid ≤ 1 ∧
+    (ncomp s.log sid = 0 → ∃ c, s.conns.get (s.skey sid) = some c ∧ (s.obj c).stream = some sid ∧ (s.obj c).closed = false)
+
+/-- a decidable sufficient condition for `NoStale`: the step does not recycle at all -/
+def noRecycleB (s : State) (t : Tid) : Bool :=
+  match (s.thr t).pc with
+  | .ins _ => s.free.isEmpty
+  | _ => true
+
+theorem noStale_of_noRecycleB (s : State) (t : Tid) (h : noRecycleB s t = true) : NoStale s t := by
+  intro ⟨sid, c, f, hpc, hf, _⟩
+  simp [noRecycleB, hpc, hf] at h
+
 end Gp.Pool.Asm
